@@ -837,7 +837,7 @@ class C19(Prop):
     batch = 400
 
     def n_random(self, tier: str) -> int:
-        return 200000 if tier == "quick" else 6000000
+        return 120000 if tier == "quick" else 6000000
 
     def budget_s(self, tier: str) -> float:
         return 240 if tier == "quick" else 3000
